@@ -21,7 +21,7 @@ EXPLANATION = (
     "is not an array element, scans from index 0 and answers NaN (0 for count/sum) on empty or all-NaN input; NaN "
     "aggregates become the no-data value; the aggregate evaluated is the one named in the map key.")
 ASSUMPTIONS = ["coordinates lie inside the (margin-extended) bounding box (the None branch is out of scope)"]
-TECHNIQUE = "abstract interpretation of the cell aggregators (341 value lists over NaN patterns each), Raster.getCell (five grids, points inside / on borders / at corners) and the scatter / aggregate pipeline (collections with shared uids, six maps over one feature) by the checker's AST interpreter, against aggregates and footprints computed by the checker (bounded case domains)"
+TECHNIQUE = "abstract interpretation of the cell aggregators (344 value lists over NaN patterns each, the NaN values being other objects than the module's NAN), Raster.getCell (five grids, points inside / on borders / at corners) and the scatter / aggregate pipeline (collections with shared uids, six maps over one feature) by the checker's AST interpreter, against aggregates and footprints computed by the checker (bounded case domains)"
 
 CO = ['co_count', 'co_sum', 'co_min', 'co_max', 'co_avg', 'co_median']
 
